@@ -13,43 +13,38 @@ Section AnyCarrier.
   Context {A : Type} `{Num A}.
   Definition fobj_of (g : fn A) : fobj A := {| f_call := feval g; f_deriv := fderiv g; f_hess := fhess g |}.
 
-  Lemma gen_null x : NullFunction_call x = feval FNull x /\ NullFunction_deriv x = fderiv FNull x /\ NullFunction_hess x = fhess FNull x.
+  Lemma gen_null x : NullFunction_call x = feval FNull x /\ NullFunction_deriv x = fderiv FNull x.
   Proof. repeat split; reflexivity. Qed.
   Lemma gen_sum fs x :
     SumFunction_call (map fobj_of fs) x = feval (FSum fs) x /\
-    SumFunction_deriv (map fobj_of fs) x = fderiv (FSum fs) x /\
-    SumFunction_hess (map fobj_of fs) x = fhess (FSum fs) x.
+    SumFunction_deriv (map fobj_of fs) x = fderiv (FSum fs) x.
   Proof.
-    unfold SumFunction_call, SumFunction_deriv, SumFunction_hess. cbn [feval fderiv fhess]. rewrite !map_map. cbn [fobj_of f_call f_deriv f_hess].
+    unfold SumFunction_call, SumFunction_deriv. cbn [feval fderiv]. rewrite !map_map. cbn [fobj_of f_call f_deriv].
     repeat split; reflexivity.
   Qed.
   Lemma gen_reflect g x :
     ReflectedFunction_call (fobj_of g) x = feval (FReflect g) x /\
-    ReflectedFunction_deriv (fobj_of g) x = fderiv (FReflect g) x /\
-    ReflectedFunction_hess (fobj_of g) x = fhess (FReflect g) x.
+    ReflectedFunction_deriv (fobj_of g) x = fderiv (FReflect g) x.
   Proof. repeat split; reflexivity. Qed.
   Lemma gen_innersum pl ph xl xh x :
     InnerSumFunction_call (sfobj_hl (pl, ph, xl, xh)) x = feval (FInnerHL pl ph xl xh) x /\
-    InnerSumFunction_deriv (sfobj_hl (pl, ph, xl, xh)) x = fderiv (FInnerHL pl ph xl xh) x /\
-    InnerSumFunction_hess (sfobj_hl (pl, ph, xl, xh)) x = fhess (FInnerHL pl ph xl xh) x.
+    InnerSumFunction_deriv (sfobj_hl (pl, ph, xl, xh)) x = fderiv (FInnerHL pl ph xl xh) x.
   Proof. repeat split; reflexivity. Qed.
+  Lemma x2d_map qs (x : list A) (G : sfobj A -> A -> A) (G' : A * A * A * A -> A -> A) : (forall q v, G (sfobj_hl q) v = G' q v) ->
+    map (fun kv : nat * A => G (nth (fst kv) (map sfobj_hl qs) null_sfobj) (snd kv)) (idx x) =
+    map (fun '(i, v) => G' (nth i qs (n0, n0, n0, n0)) v) (idx x).
+  Proof.
+    intros HG. apply map_ext. intros [k v]. cbn [fst snd].
+    replace (nth k (map sfobj_hl qs) null_sfobj) with (sfobj_hl (nth k qs (n0, n0, n0, n0))) by (symmetry; apply (map_nth sfobj_hl)). apply HG.
+  Qed.
   Lemma gen_x2d qs x :
     X2D_call (map sfobj_hl qs) x = feval (FX2D qs) x /\
-    X2D_deriv (map sfobj_hl qs) x = fderiv (FX2D qs) x /\
-    X2D_hess (map sfobj_hl qs) x = fhess (FX2D qs) x.
+    X2D_deriv (map sfobj_hl qs) x = fderiv (FX2D qs) x.
   Proof.
-    unfold X2D_call, X2D_deriv, X2D_hess. cbn [feval fderiv fhess]. cbv zeta.
-    assert (E : forall k, nth k (map sfobj_hl qs) null_sfobj = sfobj_hl (nth k qs (n0, n0, n0, n0))) by (intros k; apply (map_nth sfobj_hl)).
-    assert (M : forall (G : sfobj A -> A -> A) (G' : A * A * A * A -> A -> A), (forall q v, G (sfobj_hl q) v = G' q v) ->
-              map (fun kv : nat * A => G (nth (fst kv) (map sfobj_hl qs) null_sfobj) (snd kv)) (idx x) =
-              map (fun '(i, v) => G' (nth i qs (n0, n0, n0, n0)) v) (idx x)).
-    { intros G G' HG. apply map_ext. intros [k v]. cbn [fst snd]. rewrite E. apply HG. }
-    split; [|split].
-    - f_equal. rewrite (M (fun o v => sf_call o v) (fun q v => let '(pl, ph, xl, xh) := q in hl_cost v pl ph xl xh)); [reflexivity|].
+    unfold X2D_call, X2D_deriv. cbn [feval fderiv]. cbv zeta. split.
+    - f_equal. rewrite (x2d_map qs x (fun o v => sf_call o v) (fun q v => let '(pl, ph, xl, xh) := q in hl_cost v pl ph xl xh)); [reflexivity|].
       intros [[[pl ph] xl] xh] v. reflexivity.
-    - rewrite (M (fun o v => sf_deriv o v) (fun q v => let '(pl, ph, xl, xh) := q in hl_deriv v pl ph xl xh)); [reflexivity|].
-      intros [[[pl ph] xl] xh] v. reflexivity.
-    - f_equal. rewrite (M (fun o v => sf_hess o v) (fun q v => let '(pl, ph, xl, xh) := q in hl_hess v pl ph xl xh)); [reflexivity|].
+    - rewrite (x2d_map qs x (fun o v => sf_deriv o v) (fun q v => let '(pl, ph, xl, xh) := q in hl_deriv v pl ph xl xh)); [reflexivity|].
       intros [[[pl ph] xl] xh] v. reflexivity.
   Qed.
   Lemma gen_poly2d_call cs x : Poly2D_call cs x = feval (FPoly2D cs) x.
@@ -60,15 +55,22 @@ Section AnyCarrier.
   Definition ranges_of (rs : list (nat * nat * fn A)) : list (nat * nat) := map fst rs.
   Definition fobjs_of (rs : list (nat * nat * fn A)) : list (fobj A) := map (fun r => fobj_of (snd r)) rs.
 
+  Lemma ranges_loop_gen {B} (g : fobj A -> nat * nat -> B) : forall (suf pre : list (nat * nat * fobj A)),
+    map (fun kr => g (nth (fst kr) (map snd (pre ++ suf)) null_fobj) (snd kr)) (combine (seq (length pre) (length (map fst suf))) (map fst suf))
+    = map (fun r => g (snd r) (fst r)) suf.
+  Proof.
+    induction suf as [|r suf IH]; intros pre; [reflexivity|].
+    cbn [map length seq combine fst snd]. f_equal.
+    - rewrite map_app, app_nth2 by (rewrite map_length; lia). rewrite map_length, Nat.sub_diag. reflexivity.
+    - specialize (IH (pre ++ [r])). rewrite <- app_assoc in IH. cbn [app] in IH. rewrite app_length in IH. cbn [length] in IH.
+      replace (length pre + 1)%nat with (S (length pre)) in IH by lia. exact IH.
+  Qed.
   Lemma ranges_loop {B} (g : fobj A -> nat * nat -> B) : forall (suf pre : list (nat * nat * fn A)),
     map (fun kr => g (nth (fst kr) (fobjs_of (pre ++ suf)) null_fobj) (snd kr)) (combine (seq (length pre) (length (ranges_of suf))) (ranges_of suf))
     = map (fun r => g (fobj_of (snd r)) (fst r)) suf.
   Proof.
-    induction suf as [|r suf IH]; intros pre; [reflexivity|].
-    cbn [ranges_of map length seq combine fst snd]. f_equal.
-    - unfold fobjs_of. rewrite map_app, app_nth2 by (rewrite map_length; lia). rewrite map_length, Nat.sub_diag. reflexivity.
-    - specialize (IH (pre ++ [r])). rewrite <- app_assoc in IH. cbn [app] in IH. rewrite app_length in IH. cbn [length] in IH.
-      replace (length pre + 1)%nat with (S (length pre)) in IH by lia. unfold ranges_of in *. exact IH.
+    intros suf pre. pose proof (ranges_loop_gen g (map (fun r => (fst r, fobj_of (snd r))) suf) (map (fun r => (fst r, fobj_of (snd r))) pre)) as HL.
+    rewrite <- map_app, !map_map, map_length in HL. cbn [fst snd] in HL. unfold fobjs_of, ranges_of. exact HL.
   Qed.
 
   Lemma fold_concat {B} (l : list (list B)) : forall acc, fold_left (fun a b => a ++ b) l acc = acc ++ concat l.
@@ -90,12 +92,47 @@ Section AnyCarrier.
   (* ADevice: the device whose preference is a function object *)
   Lemma gen_adevice n bnd cb (g : fn A) ucs s p : let d := Build_leafdev n bnd cb (KA g ucs) in
     ADevice_cost (fobj_of g) s p = leaf_cost d s p /\
-    ADevice_deriv (fobj_of g) s p = leaf_deriv d s p /\
-    ADevice_hess (fobj_of g) s p = leaf_hess d s.
+    ADevice_deriv (fobj_of g) s p = leaf_deriv d s p.
   Proof. cbv zeta. repeat split. Qed.
+  (* CDevice2: the preference object assembled from InnerSumFunction / RangesFunction objects *)
+  Lemma ranges_fobj_call (rf : list (nat * nat * fobj A)) x :
+    f_call (ranges_fobj rf) x = vsum (map (fun r => f_call (snd r) (slice (fst (fst r)) (snd (fst r)) x)) rf).
+  Proof.
+    cbn [ranges_fobj f_call]. unfold RangesFunction_call, enum_ranges. cbv zeta. f_equal.
+    exact (ranges_loop_gen (fun f r => f_call f (slice (fst r) (snd r) x)) rf []).
+  Qed.
+  Lemma ranges_fobj_deriv (rf : list (nat * nat * fobj A)) x :
+    f_deriv (ranges_fobj rf) x = flat_map (fun r => f_deriv (snd r) (slice (fst (fst r)) (snd (fst r)) x)) rf.
+  Proof.
+    cbn [ranges_fobj f_deriv]. unfold RangesFunction_deriv, enum_ranges. cbv zeta. rewrite fold_concat. cbn [app].
+    rewrite flat_map_concat_map. f_equal.
+    exact (ranges_loop_gen (fun f r => f_deriv f (slice (fst r) (snd r) x)) rf []).
+  Qed.
+  Theorem gen_cdevice2_cost n pl ph (cbs : list (cbound A)) s p : CDevice2_cost n pl ph cbs s p = cdev2_cost pl ph cbs s p.
+  Proof.
+    unfold CDevice2_cost, cdev2_cost, CDevice2_cost_fn, cdev2_pref. f_equal.
+    destruct cbs as [|c [|c2 rest]]; [reflexivity|reflexivity|].
+    cbn [length Nat.eqb]. rewrite ranges_fobj_call, map_map. reflexivity.
+  Qed.
+  Lemma gen_cdevice2_dpref pl ph (cbs : list (cbound A)) s : f_deriv (CDevice2_cost_fn pl ph cbs) s = cdev2_dpref pl ph cbs s.
+  Proof.
+    unfold CDevice2_cost_fn, cdev2_dpref.
+    destruct cbs as [|c [|c2 rest]]; [reflexivity|reflexivity|].
+    cbn [length Nat.eqb]. rewrite ranges_fobj_deriv. rewrite (flat_map_concat_map _ (map _ _)), map_map, <- flat_map_concat_map. reflexivity.
+  Qed.
 End AnyCarrier.
 
 Local Open Scope R_scope.
+Lemma vmul_ones_l n (d : list R) : length d = n -> vmul (ones n) d = d.
+Proof.
+  revert d. induction n as [|n IH]; intros [|x d] Hl; simpl in Hl; try lia; [reflexivity|].
+  unfold ones, vconst in *. cbn [repeat vmul map2]. f_equal; [cbn; ring|]. apply IH. lia.
+Qed.
+(* np.ones(len(self)) * f.deriv(s) + p: when the cumulative ranges cover the horizon (what the constructor checks) the preference gradient has
+   one entry per slot and the product with ones is the gradient itself *)
+Theorem gen_cdevice2_deriv n pl ph (cbs : list (cbound R)) (s p : list R) : length (cdev2_dpref pl ph cbs s) = n ->
+  CDevice2_deriv n pl ph cbs s p = cdev2_deriv pl ph cbs s p.
+Proof. intros Hl. unfold CDevice2_deriv, cdev2_deriv. rewrite gen_cdevice2_dpref, (vmul_ones_l n _ Hl). reflexivity. Qed.
 Lemma horner_zeros_app k (l : list R) u : horner (repeat 0 k ++ l) u = horner l u.
 Proof.
   unfold horner. rewrite fold_left_app. f_equal. induction k as [|k IH]; [reflexivity|]. cbn [repeat fold_left]. 
@@ -107,19 +144,16 @@ Lemma nth_map_pad (F : list R -> list R) cs k : F [] = [] -> nth k (map F cs) []
 Proof. intros E. rewrite <- E at 1. apply map_nth. Qed.
 
 Theorem gen_poly2d cs (x : list R) :
-  Poly2D_call cs x = feval (FPoly2D cs) x /\ Poly2D_deriv cs x = fderiv (FPoly2D cs) x /\ Poly2D_hess cs x = fhess (FPoly2D cs) x.
+  Poly2D_call cs x = feval (FPoly2D cs) x /\ Poly2D_deriv cs x = fderiv (FPoly2D cs) x.
 Proof.
-  split; [apply gen_poly2d_call|]. unfold Poly2D_deriv, Poly2D_hess, Poly2D_vector. cbn [fderiv fhess]. cbv zeta.
-  split; [|f_equal]; apply map_ext; intros [k v]; cbn [fst snd]; rewrite nth_map_pad by reflexivity;
-    unfold poly_deriv_padded, poly_deriv2_padded; apply horner_pad.
+  split; [apply gen_poly2d_call|]. unfold Poly2D_deriv, Poly2D_vector. cbn [fderiv]. cbv zeta.
+  apply map_ext; intros [k v]; cbn [fst snd]; rewrite nth_map_pad by reflexivity; unfold poly_deriv_padded; apply horner_pad.
 Qed.
 Theorem gen_poly2doffset cs offs (x : list R) :
-  Poly2DOffset_call cs offs x = feval (FPoly2DOffset cs offs) x /\ Poly2DOffset_deriv cs offs x = fderiv (FPoly2DOffset cs offs) x /\
-  Poly2DOffset_hess cs offs x = fhess (FPoly2DOffset cs offs) x.
+  Poly2DOffset_call cs offs x = feval (FPoly2DOffset cs offs) x /\ Poly2DOffset_deriv cs offs x = fderiv (FPoly2DOffset cs offs) x.
 Proof.
-  split; [apply gen_poly2doffset_call|]. unfold Poly2DOffset_deriv, Poly2DOffset_hess, Poly2DOffset_vector. cbn [fderiv fhess]. cbv zeta.
-  split; [|f_equal]; apply map_ext; intros [k v]; cbn [fst snd]; rewrite nth_map_pad by reflexivity;
-    unfold poly_deriv_padded, poly_deriv2_padded; apply horner_pad.
+  split; [apply gen_poly2doffset_call|]. unfold Poly2DOffset_deriv, Poly2DOffset_vector. cbn [fderiv]. cbv zeta.
+  apply map_ext; intros [k v]; cbn [fst snd]; rewrite nth_map_pad by reflexivity; unfold poly_deriv_padded; apply horner_pad.
 Qed.
 Lemma vadd_zero_zero c : vadd (repeat (n0 (A:=R)) c) (repeat n0 c) = repeat n0 c.
 Proof. induction c as [|c IH]; [reflexivity|]. cbn [repeat vadd map2]. f_equal; [cbn; ring | exact IH]. Qed.
@@ -127,12 +161,10 @@ Lemma madd_mzero r c : madd (mconst r c (n0 (A:=R))) (mconst r c n0) = mconst r 
 Proof. unfold madd, mconst. induction r as [|r IH]; [reflexivity|]. cbn [repeat map2]. f_equal; [apply vadd_zero_zero | exact IH]. Qed.
 (* SumFunction([]) is SumFunction([NullFunction()]) (the constructor's rule): the same function *)
 Theorem gen_sum_empty (x : list R) :
-  SumFunction_call [fobj_of FNull] x = feval (FSum []) x /\ SumFunction_deriv [fobj_of FNull] x = fderiv (FSum []) x /\
-  SumFunction_hess [fobj_of FNull] x = fhess (FSum []) x.
+  SumFunction_call [fobj_of FNull] x = feval (FSum []) x /\ SumFunction_deriv [fobj_of FNull] x = fderiv (FSum []) x.
 Proof.
-  unfold SumFunction_call, SumFunction_deriv, SumFunction_hess. cbn [map feval fderiv fhess fobj_of f_call f_deriv f_hess vsum fold_right colsum].
+  unfold SumFunction_call, SumFunction_deriv. cbn [map feval fderiv fobj_of f_call f_deriv vsum fold_right colsum].
   repeat split.
   - cbn. ring.
   - unfold zeros, vconst. induction (length x) as [|k IH]; [reflexivity|]. cbn [repeat vadd map2]. f_equal; [cbn; ring | exact IH].
-  - unfold msum. cbn [fold_right]. apply madd_mzero.
 Qed.
